@@ -161,7 +161,7 @@ def dump_one(f: TextIO, data: IOData):
     print("# Mol2 file created with Iodata", file=f)
     print("\n\n\n\n\n", file=f)
     print("@<TRIPOS>MOLECULE", file=f)
-    print(data.title or "Created with IOData", file=f)
+    print("Created with IOData" if data.title is None else data.title, file=f)
     if data.bonds is not None:
         bonds = len(data.bonds)
         print(f"{data.natom:5d} {bonds:6d} {0:6d} {0:6d}", file=f)
